@@ -18,7 +18,10 @@ package ext
 //@   replay-go w := &vcgoWire{b: []byte(strings.Repeat("a", 10000) + strings.Repeat("N", 300))}; rs := AcquireBodyStream(&bytebufferpool.ByteBuffer{}, w, nil, 10000); total := 0; buf := make([]byte, 4096); for i := 0; i < 8; i++ { n, err := rs.Read(buf); total += n; if err != nil { break } }; if total > 10000 || w.pos > 10000 { fmt.Println("VCGO-VIOLATED a 10000-byte streamed body delivered", total, "bytes and consumed", w.pos, "wire bytes (the excess belongs to the next request)") }
 //@   requires rs.contentLength >= 0 ==> bsFixed(rs)
 //@   requires rs.reader != nil
+//@   requires rs.chunkLeft >= 0
 //@   modifies *, rs.reader.pos, rs.reader.avail, rs.reader.failed
+//@   ensures old(rs.contentLength) == -1 ==> rs.chunkLeft >= 0
+//@   assert @C14 before ParseChunkSize: rs.chunkLeft == 0
 //@   top-ensures old(rs.contentLength) >= 0 ==> rs.reader.pos >= old(rs.reader.pos) && rs.reader.pos - old(rs.reader.pos) <= old(rs.contentLength - rs.offset)
 //@   ensures old(rs.contentLength) >= 0 ==> 0 <= n && n <= len(p)
 
@@ -44,6 +47,7 @@ package ext
 //@   requires rs.contentLength >= 0 && rs.prefetchedBytes != nil ==> bsFixed(rs)
 //@   requires rs.reader != nil
 //@   requires rs.reader.avail >= 0
+//@   requires rs.chunkLeft >= 0
 //@   modifies *, rs.reader.pos, rs.reader.avail, rs.reader.failed
 //@   top-ensures old(rs.contentLength) >= 0 && old(rs.prefetchedBytes) != nil && err == nil ==> rs.reader.pos == old(rs.reader.pos) + old(rs.contentLength - ite(rs.offset > len(rs.prefetchedBytes.s), rs.offset, len(rs.prefetchedBytes.s)))
 //@   assert @C14 before ParseChunkSize: rs.chunkLeft == 0
